@@ -38,6 +38,9 @@ type Prop struct {
 	Ty       *Ty
 	// the proto field a value for this property ends up in (nil for an exposed oneof)
 	Field protoreflect.FieldDescriptor
+	// Flatten: (raw environments only) the object field is marked flatten: ClientProperties replaces it
+	// by the client properties of its schema
+	Flatten bool
 }
 
 type Schema struct {
@@ -62,6 +65,11 @@ type Env struct {
 	byPtr   map[j5schema.RootSchema]string
 	// problems found while dumping (assumptions of the model that the schema breaks)
 	Problems []string
+	// Raw: list ObjectSchema.Properties (before ClientProperties hoists flattened children) instead of
+	// ClientProperties(); used by the encoder family's reflector-derivation tie (rawenv.go)
+	Raw bool
+	// EnumDesc: the proto enum descriptor behind each enum schema that a field refers to
+	EnumDesc map[string]protoreflect.EnumDescriptor
 }
 
 func (e *Env) Lookup(name string) *Schema { return e.byName[name] }
@@ -99,6 +107,9 @@ func (e *Env) visit(rs j5schema.RootSchema, desc protoreflect.MessageDescriptor)
 	case *j5schema.ObjectSchema:
 		s.Class = "object"
 		props = st.ClientProperties()
+		if e.Raw {
+			props = st.Properties
+		}
 	case *j5schema.OneofSchema:
 		s.Class = "oneof"
 		props = st.ClientProperties()
@@ -117,6 +128,9 @@ func (e *Env) visit(rs j5schema.RootSchema, desc protoreflect.MessageDescriptor)
 	}
 	for _, ps := range props {
 		p := &Prop{JSON: ps.JSONName, Required: ps.Required}
+		if of, ok := ps.Schema.(*j5schema.ObjectField); ok && of.Flatten {
+			p.Flatten = true
+		}
 		walk := desc
 		var fd protoreflect.FieldDescriptor
 		for idx, num := range ps.ProtoField {
@@ -198,6 +212,18 @@ func (e *Env) ty(fs j5schema.FieldSchema, fd protoreflect.FieldDescriptor, holde
 		n, err := e.visit(st.Schema(), nil)
 		if err != nil {
 			return nil, err
+		}
+		if fd != nil {
+			ed := fd.Enum()
+			if fd.IsMap() {
+				ed = fd.MapValue().Enum()
+			}
+			if ed != nil {
+				if e.EnumDesc == nil {
+					e.EnumDesc = map[string]protoreflect.EnumDescriptor{}
+				}
+				e.EnumDesc[n] = ed
+			}
 		}
 		return &Ty{Class: "enum", Ref: n}, nil
 	case *j5schema.ObjectField:
